@@ -574,3 +574,38 @@ func FuzzJudge(t *testing.T, id, sub string, c any, err error) {
 	fmt.Printf("VERIF-FUZZ-REPLAY %s\n", path)
 	t.Fatalf("%v", err)
 }
+
+// FuzzRapid turns a rapid generator + decider into a native fuzz target: the
+// fuzzer's bytes drive rapid's draws (coverage-guided search over the same
+// structured generator), the same Run decides, and failures are saved as
+// ordinary replay files.
+func FuzzRapid[C any](f *testing.F, id, sub string, gen func(*rapid.T) C, run func(C) error) {
+	f.Fuzz(rapid.MakeFuzz(func(t *rapid.T) {
+		c := gen(t)
+		err := safeRun(run, c)
+		if err == nil {
+			return
+		}
+		root := os.Getenv("VERIF_ROOT")
+		if root == "" {
+			root = "/verif"
+		}
+		var k *KnownErr
+		if errors.As(err, &k) {
+			for _, kl := range LoadKnown(filepath.Join(root, "known_findings.txt")) {
+				if kl.Property == id && kl.Classifier == k.Classifier {
+					return
+				}
+			}
+		}
+		raw, _ := json.Marshal(c)
+		file := map[string]any{"property": id, "sub": sub, "case": json.RawMessage(raw), "msg": err.Error()}
+		data, _ := json.MarshalIndent(file, "", " ")
+		dir := filepath.Join(root, "replays")
+		os.MkdirAll(dir, 0o755)
+		path := filepath.Join(dir, fmt.Sprintf("%s-%s-fuzz-%016x.json", id, sub, cov.FP(raw)))
+		os.WriteFile(path, data, 0o644)
+		fmt.Printf("VERIF-FUZZ-REPLAY %s\n", path)
+		t.Fatalf("%v", err)
+	}))
+}
